@@ -3,7 +3,7 @@ package sighashref
 import "testing"
 
 func TestAnchor(t *testing.T) {
-	n, err := Anchor("/repo/bscript/interpreter/data")
+	n, err := Anchor("../vectors")
 	if err != nil {
 		t.Fatal(n, err)
 	}
